@@ -132,9 +132,47 @@ TypeCheck(it) ==
        "bad:" \o it.blocks[b].loc \o ":" \o BlockVerdict(it.blocks[b], it)
   ELSE "ok"
 
+(* ---- C37: validity of an SSA graph.  [t |-> "ssa", blocks, edges <<[s, d]>>, head, immut <<names>>] ---- *)
+(* dominance by its definition over paths (as in Graph.tla), on block names *)
+SuccN(E, n) == {E[i].d : i \in {j \in 1..Len(E) : E[j].s = n}}
+RECURSIVE ReachN(_, _, _)
+ReachN(E, S, Avoid) == LET nxt == (S \cup UNION {SuccN(E, n) : n \in S}) \ Avoid IN IF nxt = S THEN S ELSE ReachN(E, nxt, Avoid)
+DominatesN(E, h, d, n) == d = n \/ d = h \/ n \notin ReachN(E, {h} \ {d}, {d})
+PredN(E, n) == {E[i].s : i \in {j \in 1..Len(E) : E[j].d = n}}
+IsPhi(e) == e.k = "op" /\ e.op = "Phi"
+(* definition sites <<block index, assign block index>> of a variable *)
+DefSites(blocks, v) == {<<b, a>> \in UNION {{<<b, a>> : a \in 1..Len(blocks[b].abs)} : b \in 1..Len(blocks)} :
+                          \E i \in 1..Len(blocks[b].abs[a]) : blocks[b].abs[a][i].d.k = "id" /\ blocks[b].abs[a][i].d.n = v}
+SsaVerdict(it) ==
+  LET B == it.blocks
+      tracked(v) == ~IsLocName(v) /\ \A k \in 1..Len(it.immut) : it.immut[k] # v
+      allvars == UNION {UNION {UNION {IdsOf(B[b].abs[a][i].d) \cup IdsOf(B[b].abs[a][i].s) : i \in 1..Len(B[b].abs[a])}
+                               : a \in 1..Len(B[b].abs)} : b \in 1..Len(B)}
+      vars == {v \in allvars : tracked(v)}
+      multi == {v \in vars : Cardinality(DefSites(B, v)) > 1}
+      (* a use of v at (b, a) in a non-phi source (or in a pointer of a destination) *)
+      usesAt(b, a) == UNION {(IF IsPhi(B[b].abs[a][i].s) THEN {} ELSE IdsOf(B[b].abs[a][i].s))
+                             \cup (IF B[b].abs[a][i].d.k = "mem" THEN IdsOf(B[b].abs[a][i].d.p) ELSE {}) : i \in 1..Len(B[b].abs[a])}
+      badUse == {<<b, a, v>> \in UNION {UNION {{<<b, a, v>> : v \in usesAt(b, a) \cap vars} : a \in 1..Len(B[b].abs)} : b \in 1..Len(B)} :
+                   /\ DefSites(B, v) # {}
+                   /\ LET d == CHOOSE x \in DefSites(B, v) : TRUE IN
+                      IF d[1] = b THEN ~(d[2] < a)
+                      ELSE ~(B[b].loc \in ReachN(it.edges, {it.head}, {}) => DominatesN(it.edges, it.head, B[d[1]].loc, B[b].loc))}
+      phiArgs(b, a) == UNION {IF IsPhi(B[b].abs[a][i].s) THEN IdsOf(B[b].abs[a][i].s) ELSE {} : i \in 1..Len(B[b].abs[a])}
+      badPhi == {<<b, a, v>> \in UNION {UNION {{<<b, a, v>> : v \in phiArgs(b, a) \cap vars} : a \in 1..Len(B[b].abs)} : b \in 1..Len(B)} :
+                   /\ DefSites(B, v) # {}
+                   /\ B[b].loc \in ReachN(it.edges, {it.head}, {})
+                   /\ LET d == CHOOSE x \in DefSites(B, v) : TRUE IN
+                      ~\E p \in PredN(it.edges, B[b].loc) : DominatesN(it.edges, it.head, B[d[1]].loc, p)}
+  IN IF multi # {} THEN "bad:defined-more-than-once:" \o (CHOOSE v \in multi : TRUE)
+     ELSE IF badUse # {} THEN "bad:use-not-dominated-by-definition:" \o (CHOOSE x \in badUse : TRUE)[3]
+     ELSE IF badPhi # {} THEN "bad:phi-argument-not-defined-along-a-predecessor:" \o (CHOOSE x \in badPhi : TRUE)[3]
+     ELSE "ok"
+
 Verdict(it) ==
   CASE it.t = "symb" -> FirstBadSymb(it, 1)
     [] it.t = "equiv" -> FirstBadEquiv(it, 1)
     [] it.t = "lifted" -> TypeCheck(it)
+    [] it.t = "ssa" -> SsaVerdict(it)
 Report == lo < hi \/ PrintT("V " \o ToString(cur) \o " " \o Verdict(Items[cur]))
 =============================================================================
